@@ -15,6 +15,7 @@ import (
 	"encoding/json"
 	"fmt"
 	"os"
+	"runtime"
 	"sync"
 	"time"
 )
@@ -204,7 +205,12 @@ func SetClock(ns int64) {}
 func FixedRand(seq ...uint32) {}
 
 // RunCleanups runs every runtime.AddCleanup callback whose object is unreachable (gosym only).
-func RunCleanups() {}
+func RunCleanups() {
+	for i := 0; i < 3; i++ {
+		runtime.GC()
+		time.Sleep(20 * time.Millisecond)
+	}
+}
 
 // ---- ordinary Go on top of the primitives --------------------------------------
 
